@@ -69,6 +69,9 @@ func retrieveSteps(steps []gen.Step, doc interface{}, st *Stats) ([]interface{},
 		noteParse(poison, true, false)
 		_, _ = jsonpath.Parse(poison, BuildConfig(nil, true, false))
 	}
+	if hv%29 == 3 {
+		panickingRetrieval(int(hv/29), 1+int(hv/29)%3)
+	}
 	rec := &Recorder{}
 	cfg := BuildConfig(rec, true, false)
 	noteParse(text, true, false)
